@@ -161,6 +161,32 @@ def siterate (KC : Codec K) (VC : Codec V) (m : Store) (pfx : Bytes) (bwd : Bool
     let (acc, status, tr) := iterLoop F.kvAfter stop rs 0 [] []
     ⟨m, .iter acc status, tr⟩
 
+/-! ### `IterateKeys`, `DeletePrefix`, `Clear` -/
+
+/-- Entry `i` of a key iteration makes decode call `i` (keys only). -/
+def decKeyEntry (KC : Codec K) (F : SFaults) (i : Nat) (e : Bytes × Bytes) : Except SErr (K × Unit) :=
+  match decAt KC F i e.1 with
+  | none => .error .decK
+  | some k => .ok (k, ())
+
+/-- `IterateKeys` is the consumer loop of `Iterate` without the value decode (the trace drops the
+value-decode events of the shared loop). -/
+def siterateKeys (KC : Codec K) (m : Store) (pfx : Bytes) (bwd : Bool) (stop : Nat) (F : SFaults) : SRes K Unit :=
+  if F.kv1 then ⟨m, .iter [] (some .kv), [⟨.kvIter, .fail⟩]⟩
+  else
+    let rs := mapIdxFrom (decKeyEntry KC F) 0 (m.entries pfx bwd)
+    let (acc, status, tr) := iterLoop F.kvAfter stop rs 0 [] []
+    ⟨m, .iter acc status, tr.filter fun e => e.call != .decV⟩
+
+def Store.deletePrefix (m : Store) (pfx : Bytes) : Store := m.filter fun e => !pfx.isPrefixOf e.1
+
+/-- `DeletePrefix` and `Clear` hand the store's answer through unwrapped. -/
+def sdeletePrefix (m : Store) (pfx : Bytes) (F : SFaults) : Store × Option SErr :=
+  if F.kv1 then (m, some .kv) else (m.deletePrefix pfx, none)
+
+def sclear (m : Store) (F : SFaults) : Store × Option SErr :=
+  if F.kv1 then (m, some .kv) else ([], none)
+
 def sstep (KC : Codec K) (VC : Codec V) (m : Store) (op : SOp K V) (F : SFaults) : SRes K V :=
   match op with
   | .get k => sget KC VC m k F
@@ -295,6 +321,32 @@ def sstepLine (m : Store) (toks : List String) : Store × String :=
   | ["rawdel", k] =>
     match unhex k with
     | some k => let m' := m.erase k; (m', s!"ok store={showStore m'}")
+    | none => (m, "bad-op")
+  | ["iterk", p, d, stop, f] =>
+    match unhex p, (if d == "fwd" then some false else if d == "bwd" then some true else none), stop.toNat?, parseSFaults f with
+    | some p, some bwd, some stop, some F =>
+      let r := siterateKeys codec16 m p bwd stop F
+      let keys := match r.out with
+        | .iter d _ => "[" ++ " ".intercalate (d.map fun (x : UInt16 × Unit) => toString x.1.toNat) ++ "]"
+        | _ => "[]"
+      let st := match r.out with
+        | .iter _ (some e) => showSErr e
+        | _ => "ok"
+      (m, s!"iterk {st} {keys} calls={showSTrace r.tr} store={showStore m}")
+    | _, _, _, _ => (m, "bad-op")
+  | ["delp", p, f] =>
+    match unhex p, parseSFaults f with
+    | some p, some F =>
+      match sdeletePrefix m p F with
+      | (m', none) => (m', s!"ok calls=P store={showStore m'}")
+      | (m', some e) => (m', s!"{showSErr e} calls=P! store={showStore m'}")
+    | _, _ => (m, "bad-op")
+  | ["clear", f] =>
+    match parseSFaults f with
+    | some F =>
+      match sclear m F with
+      | (m', none) => (m', s!"ok calls=Z store={showStore m'}")
+      | (m', some e) => (m', s!"{showSErr e} calls=Z! store={showStore m'}")
     | none => (m, "bad-op")
   | _ =>
     match parseSOp toks with
